@@ -255,6 +255,10 @@ class ParserUtils:
         if isinstance(value, str) and not isinstance(default_value, str):
             default_value = converter.serialize(default_value, format=var.format)
 
+        if collections.is_array(value) and collections.is_array(default_value):
+            # Frozen models declare token lists as tuples
+            value, default_value = list(value), list(default_value)
+
         if default_value != value:
             raise ParserError(
                 f"Fixed value mismatch {meta.qname}:{var.qname}, "
